@@ -269,6 +269,9 @@ comp_pod!(CDvecP, 2, DefaultVecStorage<Self>, 0,
     }
     shared_rjoin_fn!();
 );
+// `VH_POD=1` also swaps two TRACKED kinds for plain-data component types (no drop glue): 8 and 9
+comp_pod!(CFHashP, 8, FlaggedStorage<Self, HashMapStorage<Self>>, 1, tracked_fns!(); shared_rjoin_fn!(););
+comp_pod!(CDFVecP, 9, DerefFlaggedStorage<Self, VecStorage<Self>>, 2, tracked_fns!(););
 comp!(CHash, 3, HashMapStorage<Self>, 0, shared_rjoin_fn!(););
 comp!(CBTree, 4, BTreeStorage<Self>, 0, shared_rjoin_fn!(););
 comp!(CFVec, 6, FlaggedStorage<Self, VecStorage<Self>>, 1, tracked_fns!(); shared_rjoin_fn!(););
@@ -320,7 +323,7 @@ pub fn zst6() -> bool {
     static Z: std::sync::OnceLock<bool> = std::sync::OnceLock::new();
     *Z.get_or_init(|| std::env::var("VH_ZST6").map(|v| v == "1").unwrap_or(false))
 }
-/// `VH_POD=1`: kinds 1 (`DenseVecStorage`) and 2 (`DefaultVecStorage`) hold component types WITHOUT a destructor
+/// `VH_POD=1`: kinds 1 (`DenseVecStorage`), 2 (`DefaultVecStorage`), 8 and 9 (tracked) hold component types WITHOUT a destructor
 /// (`Copy` data): what a storage reports must not depend on whether the component type needs dropping (C04).
 /// (No ledger in these runs: nothing announces the destruction of such a value.)
 pub fn pod() -> bool {
@@ -362,8 +365,8 @@ macro_rules! with_kind {
             5 => { type $T = CNull; $body }
             6 => { if zst6() { type $T = CFVecZ; $body } else { type $T = CFVec; $body } }
             7 => { type $T = CFDense; $body }
-            8 => { type $T = CFHash; $body }
-            9 => { type $T = CDFVec; $body }
+            8 => { if pod() { type $T = CFHashP; $body } else { type $T = CFHash; $body } }
+            9 => { if pod() { type $T = CDFVecP; $body } else { type $T = CDFVec; $body } }
             10 => { type $T = CDFDense; $body }
             _ => { type $T = CDFBTree; $body }
         }
